@@ -97,6 +97,31 @@ func S(x any, write bool, pos string) {
 	}
 }
 
+// V records an access to the variable p points to: a package-level variable, or a local variable
+// of an enclosing function that a closure captured (both are shared by every goroutine that
+// runs the closure / the package's functions).
+func V(p any, write bool, pos string) {
+	if !live() {
+		return
+	}
+	v := reflect.ValueOf(p)
+	if v.Kind() != reflect.Ptr || v.IsNil() {
+		return
+	}
+	e := v.Elem()
+	if e.Kind() == reflect.Struct || e.Kind() == reflect.Array {
+		pp := e.Type().PkgPath()
+		if strings.HasSuffix(pp, "/vsync") || strings.HasSuffix(pp, "/vatomic") || pp == "sync" || pp == "sync/atomic" {
+			return
+		}
+	}
+	var obs func() string
+	if !write {
+		obs = func() string { return describe(e) }
+	}
+	sched.AddAccess(sched.Access{Addr: v.Pointer(), Write: write, Pos: pos}, obs)
+}
+
 // P parks the thread once for all accesses F and M accumulated for the statement that
 // follows: they are pending together (and compared with the pending accesses of every other
 // enabled thread), and what they read is folded into the thread's observation hash when the
